@@ -108,7 +108,56 @@ def gen_Exits():
     write("Exits", body_txt, "magpylib/_src/fields/field_wrap_BH.py:getBH_level2 (AST)")
 
 
-GENERATORS = {"PathPad": gen_PathPad, "Exits": gen_Exits}
+def gen_Ndim():
+    """functional-interface rank table of every registered source class, next to the rank of ONE
+    parameter value as the class's own validated attribute stores it"""
+    import numpy as np
+
+    sys.path.insert(0, os.path.join(HERE, ".."))
+    from magpylib._src.utility import get_registered_sources
+    from oracles.sources import params
+
+    reg = get_registered_sources()
+    nps = np.random.default_rng(0)
+    doc_rank = {"segment_start": 1, "segment_end": 1}  # functional-only parameters: one value is a (3,) point
+    rows, ranks = [], []
+    for name in sorted(reg):
+        cls = reg[name]
+        tab = dict(cls._field_func_kwargs_ndim)
+        rows.append((name, sorted(tab.items())))
+        if name == "CustomSource":
+            ranks.append((name, []))
+            continue
+        known = next((k.__name__ for k in cls.__mro__ if k.__name__ in
+                      ("Cuboid", "Cylinder", "CylinderSegment", "Sphere", "Tetrahedron", "TriangularMesh", "Triangle",
+                       "Circle", "Polyline", "Dipole")), None)
+        if known is None:
+            raise Refusal(f"registered source class {name} is not derived from a known class")
+        import warnings
+        with warnings.catch_warnings():
+            warnings.simplefilter("ignore")
+            obj = cls(**params(known, nps))
+        rk = []
+        for p in sorted(tab):
+            if hasattr(obj, p) and getattr(obj, p) is not None:
+                rk.append((p, int(np.ndim(getattr(obj, p)))))
+            elif p in doc_rank:
+                rk.append((p, doc_rank[p]))
+            else:
+                raise Refusal(f"no way to determine the rank of one value of {name}.{p}")
+        ranks.append((name, rk))
+    fmt = lambda rows: "[\n" + ",\n".join(
+        f'  ("{c}", [' + ", ".join(f'("{p}", {n})' for p, n in ps) + "])" for c, ps in rows) + "]"
+    body = ("namespace MagpyVerif.Gen.Ndim\n\n"
+            "/-- `_field_func_kwargs_ndim`: (class, [(parameter, rank the interface expects of a STACK of values)]) -/\n"
+            f"def table : List (String × List (String × Nat)) := {fmt(rows)}\n\n"
+            "/-- rank of ONE value of the parameter (np.ndim of the validated attribute of a valid instance) -/\n"
+            f"def singleRank : List (String × List (String × Nat)) := {fmt(ranks)}\n\n"
+            "end MagpyVerif.Gen.Ndim\n")
+    write("Ndim", body, "_field_func_kwargs_ndim of every class in magpylib._src.utility.get_registered_sources()")
+
+
+GENERATORS = {"PathPad": gen_PathPad, "Exits": gen_Exits, "Ndim": gen_Ndim}
 
 
 def main():
